@@ -246,6 +246,50 @@ func zzCheckFailStop(g *zzGraph, tr []zz.Event, err error) {
 	}
 }
 
+// zzCheckCallers: a task-call entry whose callee failed (and whose failure is not
+// ignored) stops its caller: no later command of the caller starts after the failure.
+// A shared run-once callee failing once fails every reference to it.
+func zzCheckCallers(g *zzGraph, tr []zz.Event) {
+	for _, p := range g.Tasks {
+		if p.IgnoreError {
+			continue
+		}
+		for k, c := range p.Cmds {
+			if c.Call == "" || c.IgnoreError || c.Defer {
+				continue
+			}
+			callee := g.task(c.Call)
+			if callee == nil || callee.IgnoreError {
+				continue
+			}
+			failedAt := -1
+			for j, cc := range callee.Cmds {
+				if cc.Call != "" || cc.IgnoreError || cc.Defer {
+					continue
+				}
+				if f := zzIndex(tr, "F", zzProbeID(callee.Name, j), 0); f >= 0 && tr[f].Val != 0 {
+					failedAt = f
+				}
+			}
+			if failedAt < 0 {
+				continue
+			}
+			// the call entry k must have been reached (an earlier entry ran or it is the first)
+			for j := k + 1; j < len(p.Cmds); j++ {
+				if p.Cmds[j].Call != "" || p.Cmds[j].Defer {
+					continue
+				}
+				id := zzProbeID(p.Name, j)
+				for pos, ev := range tr {
+					if ev.Kind == "S" && ev.ID == id && pos > failedAt {
+						zz.Assert(false, "caller-of-a-failed-task-stops/"+p.Name+"->"+callee.Name)
+					}
+				}
+			}
+		}
+	}
+}
+
 func zzCmdIndex(id string) int {
 	n := 0
 	for _, c := range id[strings.LastIndex(id, ".")+1:] {
@@ -311,6 +355,12 @@ func zzShapeC03(n int) (*zzGraph, []string) {
 			{Name: "R", Cmds: []zzCmd{probe, {Call: "A"}, probe}},
 			{Name: "A", Cmds: []zzCmd{probe, probe}},
 		}}, []string{"R"}
+	case 4: // a failed run-once task referenced again later, after its first failure was ignored
+		return &zzGraph{Tasks: []zzTask{
+			{Name: "R", Cmds: []zzCmd{{Call: "P"}, {Call: "S"}, probe}},
+			{Name: "P", IgnoreError: true, Cmds: []zzCmd{{Call: "S"}}},
+			{Name: "S", Run: "once", Cmds: []zzCmd{probe}},
+		}}, []string{"R"}
 	case 3: // failure in a shared run-once task with a concurrent sibling
 		return &zzGraph{Tasks: []zzTask{
 			{Name: "R", Deps: []string{"A", "B"}, Cmds: []zzCmd{probe}},
@@ -327,6 +377,7 @@ func ZZ_C03_FailStop() {
 	tf := g.build(zzFailingDefault(g))
 	tr, err := zzExec(g, tf, zzRunOpts{}, roots...)
 	zzCheckFailStop(g, tr, err)
+	zzCheckCallers(g, tr)
 	zzCheckC01(g, tr)
 	zzCheckErrorClass(g, tr, err)
 	zzCheckAllWorkDone(g, tr, err, roots)
